@@ -176,6 +176,49 @@ def _num_threads(n):
     return max(1, min(int(n), numba.config.NUMBA_NUM_THREADS))
 
 
+def _effective(case):
+    """Per run: ((frame1, pres1), (frame2, pres2)) = the attribute values of the two containers when the run starts.
+
+    Mirrors what the driver does to the real objects: both containers are built with the case-level frame and ONE shared
+    preprocesses list; 'frame' / 'assign_pres' re-assign the attribute of one container (assigning un-shares the list),
+    'mutate_pres' changes in place the list the container holds (both containers while it is shared)."""
+    frames = [case['frame'], case['frame']]
+    lists = [{'ops': list(case['pres'])}]
+    lists.append(lists[0])              # the same list object
+    out = []
+    for rs in case['runs']:
+        for act in rs.get('actions', []):
+            if act[0] == 'frame':
+                frames[act[1]] = act[2]
+            elif act[0] == 'assign_pres':
+                lists[act[1]] = {'ops': list(act[2])}
+            elif act[0] == 'mutate_pres':
+                lists[act[1]]['ops'] = list(act[2])
+        out.append(((frames[0], list(lists[0]['ops'])), (frames[1], list(lists[1]['ops']))))
+    return out
+
+
+def _run_in_child(case):
+    """Run the case in a child interpreter started with the given environment (NUMBA_NUM_THREADS=1 ...)."""
+    import json
+    import os
+    import subprocess
+    import sys
+    env = dict(os.environ)
+    env.update(case['child_env'])
+    inner = dict(case)
+    inner.pop('child_env')
+    tools = os.path.dirname(os.path.dirname(os.path.abspath(__file__)))
+    code = ('import sys, json; sys.path.insert(0, %r); from props import C09; from lib.kinds import safe_run; '
+            'c = json.load(sys.stdin); print("@@" + json.dumps(safe_run(C09.TTestKind(), c)))' % tools)
+    p = subprocess.run([sys.executable, '-c', code], input=json.dumps(inner), env=env, text=True,
+                       stdout=subprocess.PIPE, stderr=subprocess.PIPE, timeout=300)
+    for line in p.stdout.splitlines():
+        if line.startswith('@@'):
+            return json.loads(line[2:])
+    raise HarnessError(f'child interpreter gave no observation (rc={p.returncode}): {p.stderr[-400:]}')
+
+
 # ------------------------------------------------------------------------------------------------ generators
 
 DTYPES_Q = ['uint8', 'int16', 'float32', 'float64']
@@ -225,7 +268,7 @@ def _gen_frame(rng, w):
     return ['range', 0, w, rng.choice([1, 2, 3])]
 
 
-def _gen_run(rng, dtype, w, style, n1=None, n2=None, bs=None, fail=None, delay='rand', bs_mode=None, nt=None):
+def _gen_run(rng, dtype, w, style, n1=None, n2=None, bs=None, fail=None, delay='rand', bs_mode=None, nt=None, caller_nt='rand'):
     n1 = n1 if n1 is not None else rng.randint(1, 60)
     n2 = n2 if n2 is not None else rng.randint(1, 60)
     set1, scale = _gen_values(rng, dtype, n1, w, style)
@@ -268,8 +311,10 @@ def _gen_run(rng, dtype, w, style, n1=None, n2=None, bs=None, fail=None, delay='
         while sum(d) > 120:
             d[rng.randrange(len(d))] = 0
     nts = nt or [rng.choice(NT_CHOICES), rng.choice(NT_CHOICES)]
+    if caller_nt == 'rand':
+        caller_nt = rng.choice([None, None, 1, 1, 2, 3, 16])
     return {'set1': set1, 'set2': set2, 'bs': bs, 'bs_mode': bs_mode, 'fail1': fail1, 'fail2': fail2,
-            'delays1': d1, 'delays2': d2, 'nt': nts, 'sync': sync}, scale
+            'delays1': d1, 'delays2': d2, 'nt': nts, 'sync': sync, 'caller_nt': caller_nt}, scale
 
 
 def _gen_case(rng, dtypes, nruns=None, fail=None, **kw):
@@ -295,6 +340,53 @@ def _gen_case(rng, dtypes, nruns=None, fail=None, **kw):
         runs.append(run)
     return {'prec': prec, 'dtype': dtype, 'scale': scale, 'width': w, 'frame': frame, 'pres': pres,
             'wrap': rng.random() < 0.5, 'runs': runs}
+
+
+def _frame_of_len(rng, w, L):
+    idx = rng.sample(range(w), L) if rng.random() < 0.7 else [rng.randrange(w) for _ in range(L)]
+    r = rng.random()
+    if L == w and r < 0.15:
+        return None
+    if r < 0.3:
+        a = rng.randint(0, w - L)
+        return ['slice', a, a + L, 1]
+    if r < 0.65:
+        return ['list', idx]
+    return ['array', idx]
+
+
+def _rand_ops(rng):
+    r = rng.random()
+    if r < 0.25:
+        return []
+    ops = [rng.choice([['square'], ['abs'], ['affine', rng.randint(-3, 3), rng.randint(-5, 5)]])]
+    if r > 0.85:
+        ops.append(['affine', 2, 1])
+    return ops
+
+
+def _gen_history(rng, dtypes, what=None, fresh=None, nruns=None, prec=None):
+    """The same TTestContainer used for several runs, its containers' frame / preprocesses changed in between."""
+    dtype = rng.choice(dtypes)
+    w = rng.randint(3, 5)
+    L = rng.randint(1, w)
+    nruns = nruns or rng.choice([2, 2, 3])
+    base, scale = _gen_run(rng, dtype, w, 'rand', n1=rng.randint(2, 30), n2=rng.randint(2, 30), delay=rng.choice(['zero', 'rand', 'sync']))
+    runs = []
+    for i in range(nruns):
+        r = dict(base, actions=[], fresh=False)
+        if i > 0:
+            r['fresh'] = (rng.random() < 0.5) if fresh is None else fresh
+            kinds = [what] if what else rng.sample(['frame', 'assign_pres', 'mutate_pres'], rng.randint(1, 2))
+            for kd in kinds:
+                targets = rng.choice([[0], [1], [0, 1]])
+                for t in targets:
+                    r['actions'].append([kd, t, _frame_of_len(rng, w, L) if kd == 'frame' else _rand_ops(rng)])
+            r['bs'] = rng.choice([base['bs'], rng.randint(1, 16)])
+            r['nt'] = [rng.choice(NT_CHOICES), rng.choice(NT_CHOICES)]
+        runs.append(r)
+    return {'prec': prec or rng.choice(['float32', 'float64']), 'dtype': dtype, 'scale': scale, 'width': w,
+            'frame': _frame_of_len(rng, w, L), 'pres': _rand_ops(rng), 'wrap': rng.random() < 0.5, 'runs': runs, 'hist': True}
 
 
 class TTestKind(Kind):
@@ -348,8 +440,22 @@ class TTestKind(Kind):
                 if last['fail2'] is not None:
                     last['fail2'] = _nbatches(10, 2) - 1
                 yield c
+        # ---- the CALLER's numba thread budget (set in the thread that calls run(), restored afterwards)
+        for k in (1, 2, 3, 16):
+            yield _gen_case(rng, dts, nruns=2, dtype='uint8', prec='float32' if k % 2 else 'float64', caller_nt=k, n1=9, n2=14, bs=4, w=3)
+        # ... and a child interpreter started with NUMBA_NUM_THREADS=1
+        for prec in (['float32'] if q else ['float32', 'float64']):
+            c = _gen_case(rng, dts, nruns=2, dtype='uint8', prec=prec, caller_nt=None, n1=12, n2=7, bs=5, w=2, delay='zero')
+            c['child_env'] = {'NUMBA_NUM_THREADS': '1'}
+            yield c
+        # ---- container histories: same TTestContainer, attributes re-assigned / mutated between runs, same and fresh analysis
+        for what in ('frame', 'assign_pres', 'mutate_pres'):
+            for fresh in (False, True):
+                yield _gen_history(rng, dts, what=what, fresh=fresh, nruns=2)
+        for _ in range(14 if q else 200):
+            yield _gen_history(rng, dts)
         # ---- random structure
-        nrand = 110 if q else 1400
+        nrand = 96 if q else 1300
         for i in range(nrand):
             fail = None
             r = rng.random()
@@ -359,93 +465,122 @@ class TTestKind(Kind):
 
     # ---------------------------------------------------------------------------------- implementation side
     def run(self, case):
+        if case.get('child_env'):
+            return _run_in_child(case)
         import numba
         import scared
         import estraces
         prec = case['prec']
         an = scared.TTestAnalysis(precision=prec)
-        fns = [_pre_fn(p, case['wrap']) for p in case['pres']]
+        wrap = case['wrap']
+        ctx = {}
+
+        def perturb(samples):
+            th = threading.current_thread()
+            who = None
+            for i, acc in enumerate(ctx['an'].accumulators):
+                if acc is th:
+                    who = i
+            if who is None:            # the main thread measuring the trace size
+                return samples
+            k = ctx['count'][who]
+            ctx['count'][who] = k + 1
+            numba.set_num_threads(ctx['nts'][who])
+            ctx['seen_nt'][who] = numba.get_num_threads()
+            d = ctx['delays'][who][k] if k < len(ctx['delays'][who]) else 0
+            if d:
+                time.sleep(d / 1000.0)
+            if ctx['barrier'] is not None:      # release both threads into update() at the same instant
+                try:
+                    ctx['barrier'].wait(timeout=0.02)
+                except threading.BrokenBarrierError:
+                    pass
+            if ctx['fails'][who] is not None and k == ctx['fails'][who]:
+                raise Injected(f'set{who + 1}')
+            ctx['log'].append(who)
+            return samples
+        perturb.__name__ = 'verif_perturb'
+
         out = []
         prev_alive = True
-        for rs in case['runs']:
-            a1 = _array(rs['set1'], case['dtype'], case['scale'])
-            a2 = _array(rs['set2'], case['dtype'], case['scale'])
-            ths1 = estraces.read_ths_from_ram(samples=a1)
-            ths2 = estraces.read_ths_from_ram(samples=a2)
-            log = []
-            count = [0, 0]
-            seen_nt = [None, None]
-            fails = [rs['fail1'], rs['fail2']]
-            delays = [rs['delays1'], rs['delays2']]
-            nts = [_num_threads(n) for n in rs['nt']]
-
-            barrier = threading.Barrier(2) if rs.get('sync') else None
-
-            def perturb(samples, an=an, log=log, count=count, fails=fails, delays=delays, nts=nts, seen_nt=seen_nt, barrier=barrier):
-                th = threading.current_thread()
-                who = None
-                for i, acc in enumerate(an.accumulators):
-                    if acc is th:
-                        who = i
-                if who is None:            # the main thread measuring the trace size
-                    return samples
-                k = count[who]
-                count[who] = k + 1
-                numba.set_num_threads(nts[who])
-                seen_nt[who] = numba.get_num_threads()
-                d = delays[who][k] if k < len(delays[who]) else 0
-                if d:
-                    time.sleep(d / 1000.0)
-                if barrier is not None:      # release both threads into update() at the same instant
-                    try:
-                        barrier.wait(timeout=0.02)
-                    except threading.BrokenBarrierError:
-                        pass
-                if fails[who] is not None and k == fails[who]:
-                    raise Injected(f'set{who + 1}')
-                log.append(who)
-                return samples
-            perturb.__name__ = 'verif_perturb'
-
-            cont = scared.TTestContainer(ths1, ths2, frame=_frame_obj(case['frame']), preprocesses=[perturb] + fns)
-            o = {}
-            try:
-                _set_bs(rs['bs_mode'], rs['bs'])
-                with warnings.catch_warnings(), np.errstate(all='ignore'):
-                    warnings.simplefilter('ignore')
-                    try:
-                        an.run(cont)
-                        o['exc'] = 0
-                    except Injected as e:
-                        o['exc'] = 1 if str(e) == 'set1' else 2
-                    except Exception as e:       # noqa: an observation, classified in Coq
-                        o['exc'] = 3
-                        o['exc_name'] = f'{type(e).__name__}: {e}'[:160]
-            finally:
-                scared.set_batch_size(None)
-            if o['exc'] != 0:
-                prev_alive = _wait_threads(an.accumulators)
-            o['threads_finished'] = prev_alive
-            res = getattr(an, 'result', None)
-            o['result'] = None if res is None else _floats(res)
-            for i, acc in enumerate(an.accumulators[:2], 1):
-                o[f'n{i}'] = int(acc.processed_traces)
-                for name, key in (('sum', 'sum'), ('sum_squared', 'sq'), ('mean', 'mean'), ('var', 'var')):
-                    v = getattr(acc, name, None)
-                    o[f'{key}{i}'] = [] if v is None else _floats(v)
-            o['sched'] = list(log)
-            o['nt_seen'] = seen_nt
-            o['batches_seen'] = list(count)
-            out.append(o)
-            if o['exc'] != 0:
-                break
-        return {'runs': out, 'batch_size_restored': scared.Container._BATCH_SIZE is scared.container._ORIGINAL_BATCH_SIZES}
+        cont = None
+        hist = bool(case.get('hist'))
+        caller_nt0 = numba.get_num_threads()
+        try:
+            for ri, rs in enumerate(case['runs']):
+                if rs.get('fresh'):
+                    an = scared.TTestAnalysis(precision=prec)
+                ctx.update(an=an, log=[], count=[0, 0], seen_nt=[None, None], fails=[rs['fail1'], rs['fail2']],
+                           delays=[rs['delays1'], rs['delays2']], nts=[_num_threads(n) for n in rs['nt']],
+                           barrier=threading.Barrier(2) if rs.get('sync') else None)
+                if cont is None or not hist:
+                    a1 = _array(rs['set1'], case['dtype'], case['scale'])
+                    a2 = _array(rs['set2'], case['dtype'], case['scale'])
+                    cont = scared.TTestContainer(estraces.read_ths_from_ram(samples=a1), estraces.read_ths_from_ram(samples=a2),
+                                                 frame=_frame_obj(case['frame']),
+                                                 preprocesses=[perturb] + [_pre_fn(p, wrap) for p in case['pres']])
+                # container history: re-assign / mutate the public attributes of the containers of the SAME TTestContainer
+                for act in rs.get('actions', []):
+                    c = cont.containers[act[1]]
+                    if act[0] == 'frame':
+                        fo = _frame_obj(act[2])
+                        c.frame = ... if fo is None else fo
+                    elif act[0] == 'assign_pres':
+                        c.preprocesses = [perturb] + [_pre_fn(p, wrap) for p in act[2]]
+                    elif act[0] == 'mutate_pres':       # in place, on whatever list object the container holds
+                        c.preprocesses[1:] = [_pre_fn(p, wrap) for p in act[2]]
+                    else:
+                        raise HarnessError(f'unknown action {act}')
+                o = {}
+                try:
+                    _set_bs(rs['bs_mode'], rs['bs'])
+                    if rs.get('caller_nt'):
+                        numba.set_num_threads(_num_threads(rs['caller_nt']))      # the CALLER's thread budget
+                    with warnings.catch_warnings(), np.errstate(all='ignore'):
+                        warnings.simplefilter('ignore')
+                        try:
+                            an.run(cont)
+                            o['exc'] = 0
+                        except Injected as e:
+                            o['exc'] = 1 if str(e) == 'set1' else 2
+                        except Exception as e:       # noqa: an observation, classified in Coq
+                            o['exc'] = 3
+                            o['exc_name'] = f'{type(e).__name__}: {e}'[:160]
+                finally:
+                    scared.set_batch_size(None)
+                    numba.set_num_threads(caller_nt0)
+                if o['exc'] != 0:
+                    prev_alive = _wait_threads(an.accumulators)
+                o['threads_finished'] = prev_alive
+                res = getattr(an, 'result', None)
+                o['result'] = None if res is None else _floats(res)
+                for i, acc in enumerate(an.accumulators[:2], 1):
+                    o[f'n{i}'] = int(acc.processed_traces)
+                    for name, key in (('sum', 'sum'), ('sum_squared', 'sq'), ('mean', 'mean'), ('var', 'var')):
+                        v = getattr(acc, name, None)
+                        o[f'{key}{i}'] = [] if v is None else _floats(v)
+                o['sched'] = list(ctx['log'])
+                o['nt_seen'] = ctx['seen_nt']
+                o['batches_seen'] = list(ctx['count'])
+                out.append(o)
+                if o['exc'] != 0:
+                    break
+        finally:
+            numba.set_num_threads(caller_nt0)
+        return {'runs': out, 'batch_size_restored': scared.Container._BATCH_SIZE is scared.container._ORIGINAL_BATCH_SIZES,
+                'numba_config_threads': int(numba.config.NUMBA_NUM_THREADS)}
 
     def coq(self, case, obs):
         width = case['width']
         frame = _frame_indices(case['frame'], width)
         runs = []
         oruns = obs.get('runs', [])
+        if case.get('hist'):
+            def side(fp):
+                return '(%s, %s)' % (C.coq_list(_frame_indices(fp[0], width), C.coq_nat), C.coq_list(fp[1], _pre_coq))
+            over = ['(Some (%s, %s))' % (side(e[0]), side(e[1])) for e in _effective(case)]
+        else:
+            over = ['None'] * len(case['runs'])
         for i, rs in enumerate(case['runs']):
             if i < len(oruns):
                 o = oruns[i]
@@ -457,13 +592,14 @@ class TTestKind(Kind):
             runs.append(
                 '{| r_set1 := %s; r_set2 := %s; r_bs := %s; r_fail1 := %s; r_fail2 := %s; r_sched := %s; r_exc := %s; r_result := %s; '
                 'r_n1 := %s; r_sum1 := %s; r_sq1 := %s; r_n2 := %s; r_sum2 := %s; r_sq2 := %s; '
-                'r_mean1 := %s; r_var1 := %s; r_mean2 := %s; r_var2 := %s |}' % (
+                'r_mean1 := %s; r_var1 := %s; r_mean2 := %s; r_var2 := %s; r_over := %s; r_fresh := %s |}' % (
                     _zll(rs['set1']), _zll(rs['set2']), C.coq_nat(rs['bs']), _opt_nat(rs['fail1']), _opt_nat(rs['fail2']),
                     C.coq_list(o.get('sched', []), lambda b: 'true' if b else 'false'), C.coq_nat(o['exc']),
                     'None' if res is None else f'(Some {_fl(res)})',
                     C.coq_z(o.get('n1', 0)), _fl(o.get('sum1', [])), _fl(o.get('sq1', [])),
                     C.coq_z(o.get('n2', 0)), _fl(o.get('sum2', [])), _fl(o.get('sq2', [])),
-                    _fl(o.get('mean1', [])), _fl(o.get('var1', [])), _fl(o.get('mean2', [])), _fl(o.get('var2', []))))
+                    _fl(o.get('mean1', [])), _fl(o.get('var1', [])), _fl(o.get('mean2', [])), _fl(o.get('var2', [])),
+                    over[i], C.coq_bool(bool(rs.get('fresh')))))
         return '{| tc_prec := %s; tc_scale := %d%%positive; tc_frame := %s; tc_pres := %s; tc_runs := %s |}' % (
             _prec(case['prec']), case['scale'], C.coq_list(frame, C.coq_nat), C.coq_list(case['pres'], _pre_coq), C.coq_list(runs))
 
@@ -500,7 +636,8 @@ class TTestKind(Kind):
         return {'prec': case['prec'], 'dtype': case['dtype'], 'runs': len(case['runs']), 'fail': f,
                 'frame': 'none' if case['frame'] is None else case['frame'][0], 'pres': len(case['pres']),
                 'bs_mode': last['bs_mode'], 'tail_of_one': any(len(r['set1']) % r['bs'] == 1 or len(r['set2']) % r['bs'] == 1 for r in case['runs']),
-                'nt': '/'.join(str(n) for n in last['nt']), 'switches': min(switches, 20) // 4 * 4, 'finished_first': first_done, 'sync': bool(last.get('sync')),
+                'nt': '/'.join(str(n) for n in last['nt']), 'switches': min(switches, 20) // 4 * 4, 'finished_first': first_done, 'sync': bool(last.get('sync')), 'caller_nt': last.get('caller_nt'), 'child': bool(case.get('child_env')),
+                'history': '/'.join(sorted({a[0] for r in case['runs'] for a in r.get('actions', [])})) + ('+fresh' if any(r.get('fresh') for r in case['runs']) else '') if case.get('hist') else 'no',
                 'nan_or_inf': sum(1 for v in res if v != v or abs(v) == float('inf')) > 0,
                 'exc_seen': '/'.join(str(r.get('exc')) for r in o)}
 
@@ -509,11 +646,15 @@ class TTestKind(Kind):
         last = case['runs'][-1]
         if last['fail1'] is not None or last['fail2'] is not None:
             t.append('ttest_failure')
+        if case.get('hist'):
+            t.append('ttest_container_history')
         return t
 
     def sample(self, case, obs):
         c = {k: case[k] for k in ('prec', 'dtype', 'frame', 'pres', 'width')}
-        c['runs'] = [{k: r[k] for k in ('bs', 'bs_mode', 'fail1', 'fail2', 'nt')} | {'n1': len(r['set1']), 'n2': len(r['set2'])} for r in case['runs']]
+        c['runs'] = [{k: r.get(k) for k in ('bs', 'bs_mode', 'fail1', 'fail2', 'nt', 'caller_nt', 'actions', 'fresh')} | {'n1': len(r['set1']), 'n2': len(r['set2'])} for r in case['runs']]
+        c['hist'] = bool(case.get('hist'))
+        c['child_env'] = case.get('child_env')
         o = [{k: r.get(k) for k in ('exc', 'result', 'n1', 'n2', 'sched', 'nt_seen')} for r in obs.get('runs', [])]
         return {'case': c, 'observed': o}
 
@@ -522,6 +663,20 @@ class TTestKind(Kind):
         # no sleeping, one numba thread
         if any(any(r['delays1']) or any(r['delays2']) or r['nt'] != [1, 1] or r.get('sync') for r in runs):
             yield dict(case, runs=[dict(r, delays1=[0] * len(r['delays1']), delays2=[0] * len(r['delays2']), nt=[1, 1], sync=False) for r in runs])
+        if case.get('child_env'):
+            yield {k: v for k, v in case.items() if k != 'child_env'}
+        if any(r.get('caller_nt') for r in runs):
+            yield dict(case, runs=[dict(r, caller_nt=None) for r in runs])
+        if case.get('hist'):
+            # the runs share the sets and the actions are cumulative: only drop the last run / halve the shared sets
+            if len(runs) > 2:
+                yield dict(case, runs=runs[:-1])
+            for key, dk in (('set1', 'delays1'), ('set2', 'delays2')):
+                n = len(runs[0][key])
+                if n > 1:
+                    for part in (runs[0][key][:n // 2], runs[0][key][n // 2:]):
+                        yield dict(case, runs=[dict(r, **{key: part, dk: [0] * len(part)}) for r in runs])
+            return
         # fewer runs (keep the last one: it carries the failure)
         if len(runs) > 1:
             yield dict(case, runs=runs[1:])
